@@ -145,6 +145,11 @@ def classify(chk, v):
 
 
 def main(argv):
+    try:
+        import signal
+        signal.signal(signal.SIGPIPE, signal.SIG_DFL)      # `./check ... | head` must not traceback
+    except Exception:
+        pass
     if len(argv) < 2:
         print(__doc__)
         return 2
